@@ -10,6 +10,7 @@ use crate::model::Outcome;
 use crate::par::for_each_index;
 use crate::rng::Rng;
 use chumsky::error::Rich;
+use chumsky::Parser;
 use serde_json::json;
 
 pub fn basis() -> Basis {
@@ -74,6 +75,136 @@ where
             if let Some(v) = &r.out {
                 if v.contains_fb() {
                     acc.viol(Viol::case("C08: error-free result contains a recovery fallback value", g, &buf.chars, json!({"output": v.strip().show()})));
+                }
+            }
+        }
+    }
+}
+
+
+// -----------------------------------------------------------------------------------------------
+// nested_delimiters with 0..3 `others` pairs and varying main pair: statically typed parsers against
+// an independent bracket matcher ("consumes exactly one balanced delimited region")
+
+type EB<'s> = chumsky::extra::Err<Rich<'s, char>>;
+type BrOut = (Vec<Option<(usize, usize)>>, String);
+type BrP<'s> = chumsky::Boxed<'s, 's, &'s str, BrOut, EB<'s>>;
+
+/// One balanced region of kind `k` starting at `p`: position after its closer.  Inside, every opener of
+/// any listed pair starts a nested region that must itself be balanced; a stray closer is not allowed.
+fn br_region(w: &[char], p: usize, pairs: &[(char, char)], k: usize) -> Option<usize> {
+    if w.get(p) != Some(&pairs[k].0) {
+        return None;
+    }
+    let mut q = p + 1;
+    loop {
+        let c = *w.get(q)?;
+        if c == pairs[k].1 {
+            return Some(q + 1);
+        }
+        if let Some(j) = pairs.iter().position(|pr| pr.0 == c) {
+            q = br_region(w, q, pairs, j)?;
+        } else if pairs.iter().any(|pr| pr.1 == c) {
+            return None;
+        } else {
+            q += 1;
+        }
+    }
+}
+
+/// `item = 'a' recover_with(via_parser(nested_delimiters(main, others)))`; the grammar is
+/// `item.repeated().collect().then(rest)`: `None` per plain item, `Some(region span)` per recovery.
+fn br_expected(w: &[char], pairs: &[(char, char)]) -> (Vec<Option<(usize, usize)>>, usize) {
+    let mut items = vec![];
+    let mut p = 0;
+    loop {
+        if w.get(p) == Some(&'a') {
+            items.push(None);
+            p += 1;
+        } else if let Some(e) = br_region(w, p, pairs, 0) {
+            items.push(Some((p, e)));
+            p = e;
+        } else {
+            return (items, p);
+        }
+    }
+}
+
+fn br_parsers<'s>() -> Vec<(&'static str, Vec<(char, char)>, BrP<'s>)> {
+    use chumsky::prelude::*;
+    use chumsky::recovery::{nested_delimiters, via_parser};
+    macro_rules! fam {
+        ($name:expr, $s:expr, $e:expr, $others:expr) => {{
+            let mut pairs = vec![($s, $e)];
+            pairs.extend($others.iter().cloned());
+            let item = just::<_, &str, EB<'s>>('a').to(None).recover_with(via_parser(nested_delimiters($s, $e, $others, |sp: SimpleSpan| Some((sp.start, sp.end)))));
+            ($name, pairs, item.repeated().collect::<Vec<_>>().then(any().repeated().collect::<String>()).boxed())
+        }};
+    }
+    let none: [(char, char); 0] = [];
+    vec![
+        fam!("nested_delimiters('(', ')', [])", '(', ')', none),
+        fam!("nested_delimiters('(', ')', [('[', ']')])", '(', ')', [('[', ']')]),
+        fam!("nested_delimiters('(', ')', [('[', ']'), ('{', '}')])", '(', ')', [('[', ']'), ('{', '}')]),
+        fam!("nested_delimiters('[', ']', [('(', ')'), ('{', '}')])", '[', ']', [('(', ')'), ('{', '}')]),
+        fam!("nested_delimiters('(', ')', [('[', ']'), ('{', '}'), ('<', '>')])", '(', ')', [('[', ']'), ('{', '}'), ('<', '>')]),
+        fam!("nested_delimiters('{', '}', [('<', '>'), ('(', ')'), ('[', ']')])", '{', '}', [('<', '>'), ('(', ')'), ('[', ']')]),
+    ]
+}
+
+/// Byte offset -> token index for the family's inputs (all tokens are ASCII, so they coincide).
+fn bracket_family(acc: &mut Acc, words: &[Vec<char>]) {
+    let strs: Vec<String> = words.iter().map(|w| w.iter().collect()).collect();
+    let ps = br_parsers();
+    for (w, s) in words.iter().zip(strs.iter()) {
+        for (name, pairs, p) in &ps {
+            let (items, stop) = br_expected(w, pairs);
+            let rest: String = w[stop..].iter().collect();
+            let n_rec = items.iter().filter(|i| i.is_some()).count();
+            for mode in ["parse", "check"] {
+                acc.evaluations += 1;
+                acc.count("bracket_family_cases", 1);
+                let r = guarded(|| {
+                    if mode == "parse" {
+                        let r = p.parse(s.as_str());
+                        (r.has_output(), r.output().cloned(), r.errors().map(|e| (e.span().start, e.span().end)).collect::<Vec<_>>())
+                    } else {
+                        let r = p.check(s.as_str());
+                        (r.has_output(), None, r.errors().map(|e| (e.span().start, e.span().end)).collect::<Vec<_>>())
+                    }
+                });
+                let mut bad: Option<String> = None;
+                match &r {
+                    Err(e) => bad = Some(e.clone()),
+                    Ok((has, out, errs)) => {
+                        // the grammar accepts every input: items* then the rest
+                        if !*has {
+                            bad = Some(format!("no output (errors at {:?}) although item* rest matches every input", errs));
+                        } else if errs.len() != n_rec {
+                            bad = Some(format!("{} errors reported, but the bracket matcher finds {} balanced regions to recover over (items {:?})", errs.len(), n_rec, items));
+                        } else if let Some((got_items, got_rest)) = out {
+                            if got_items != &items || got_rest != &rest {
+                                bad = Some(format!("output {:?} + rest {:?}; the bracket matcher gives {:?} + rest {:?}", got_items, got_rest, items, rest));
+                            }
+                        }
+                        if bad.is_none() {
+                            // each recovered error is the failure of just('a') at the region's opener
+                            let want: Vec<(usize, usize)> = items.iter().flatten().map(|(a, _)| (*a, *a + 1)).collect();
+                            if errs != &want {
+                                bad = Some(format!("recovered errors at {:?}; expected one per region at its opener: {:?}", errs, want));
+                            }
+                        }
+                    }
+                }
+                if n_rec > 0 {
+                    acc.nontrivial_enum += 1;
+                    acc.count("bracket_family_regions_recovered", n_rec as u64);
+                }
+                if items.iter().flatten().any(|(a, e)| w[*a + 1..*e - 1].iter().any(|c| pairs[1..].iter().any(|pr| pr.0 == *c))) {
+                    acc.count("bracket_family_regions_containing_other_pairs", 1);
+                }
+                if let Some(b) = bad {
+                    acc.viol(Viol { weight: 50 + w.len(), what: format!("C08: [a.recover_with(via_parser({})).repeated().then(rest)] on {:?} ({}): {}", name, s, mode, b), detail: json!({"grammar_text": name, "input": s, "mode": mode, "part": "bracket family"}) });
                 }
             }
         }
@@ -177,6 +308,44 @@ pub fn run(cx: &RunCtx) -> i32 {
     acc.count("nested_delimiter_cases", (br.len() * br_bufs.len()) as u64);
     acc.merge(bacc);
 
+    // bracket family: 0..3 `others` pairs, every string over the eight delimiters and 'a'
+    let fam_words: Vec<Vec<char>> = {
+        let mut v = all_inputs(&['(', ')', '[', ']', '{', '}', '<', '>', 'a'], cx.t(5, 6));
+        let mut rng = Rng::derive(cx.seed, 0xC08B, 0);
+        for _ in 0..cx.t(20_000, 400_000) {
+            // random, biased towards balanced text
+            let n = rng.range(4, 16);
+            let mut w: Vec<char> = vec![];
+            let mut stack: Vec<char> = vec![];
+            for _ in 0..n {
+                match rng.below(10) {
+                    0..=3 => {
+                        let k = rng.below(4) as usize;
+                        w.push(['(', '[', '{', '<'][k]);
+                        stack.push([')', ']', '}', '>'][k]);
+                    }
+                    4..=6 => match stack.pop() {
+                        Some(c) if rng.chance(9, 10) => w.push(c),
+                        _ => w.push(*rng.pick(&[')', ']', '}', '>'])),
+                    },
+                    _ => w.push('a'),
+                }
+            }
+            if rng.chance(2, 3) {
+                while let Some(c) = stack.pop() {
+                    w.push(c);
+                }
+            }
+            v.push(w);
+        }
+        v
+    };
+    const FCH: usize = 512;
+    let facc = for_each_index((fam_words.len() + FCH - 1) / FCH, cx.threads, 1, |acc, ci| {
+        bracket_family(acc, &fam_words[ci * FCH..((ci + 1) * FCH).min(fam_words.len())]);
+    });
+    acc.merge(facc);
+
     let n_rand = cx.t(30_000, 600_000);
     let seed = cx.seed;
     let mut rb = basis();
@@ -207,7 +376,7 @@ pub fn run(cx: &RunCtx) -> i32 {
         cx,
         acc,
         Finish {
-            rule: format!("every grammar with <= {size} nodes over the K02 basis (no not()) containing 1..2 recover_with nodes (via_parser, skip_until, skip_then_retry_until, nested_delimiters) x every input <= {max_len} over {{a,b,(}}; {n_shaped} shaped grammars (each strategy around 9 inner parsers x 6 skip/until/fallback parsers, nested recoveries, each alone / followed by a tail / after an alternative that failed further ahead / inside a repetition / inside an abandoned option); 4 bracket grammars x all strings <= {} over ( ) [ ] a; {n_rand} random grammars x 6 inputs; parse and check mode. Compared with the reference semantics: output (strategy output vs parser output, extents), ordered error list (exactly one extra error per recovery, equal to the model's pending primary error at that moment), primary error and consumption on double failure, inspector state, probe trace; error-free results are searched for fallback markers. Non-trivial: the reference evaluation entered at least one recovery (successful or failed)", cx.t(5, 6)),
+            rule: format!("every grammar with <= {size} nodes over the K02 basis (no not()) containing 1..2 recover_with nodes (via_parser, skip_until, skip_then_retry_until, nested_delimiters) x every input <= {max_len} over {{a,b,(}}; {n_shaped} shaped grammars (each strategy around 9 inner parsers x 6 skip/until/fallback parsers, nested recoveries, each alone / followed by a tail / after an alternative that failed further ahead / inside a repetition / inside an abandoned option); 4 bracket grammars x all strings <= {} over ( ) [ ] a; bracket family (model-free): a.recover_with(via_parser(nested_delimiters(main, others))).repeated().then(rest) for 6 statically typed (main pair, 0..3 other pairs) configurations x all strings <= {} over the eight delimiters and a + random mostly-balanced strings <= 24 ({} inputs), against an independent bracket matcher: items, remainder, one error per recovered region at its opener, parse and check; {n_rand} random grammars x 6 inputs; parse and check mode. Compared with the reference semantics: output (strategy output vs parser output, extents), ordered error list (exactly one extra error per recovery, equal to the model's pending primary error at that moment), primary error and consumption on double failure, inspector state, probe trace; error-free results are searched for fallback markers. Non-trivial: the reference evaluation entered at least one recovery (successful or failed)", cx.t(5, 6), cx.t(5, 6), fam_words.len()),
             exhaustive: false,
             exhaustive_note: format!("grammars <= {size} nodes with 1..2 recoveries x inputs <= {max_len}: complete"),
             assumptions: vec![
@@ -215,7 +384,7 @@ pub fn run(cx: &RunCtx) -> i32 {
                 "A9: with >= 2 successful recoveries in one parse the comparison is lenient (counted as ambiguous)".into(),
                 "errors whose identity depends on a failed not() are only required to be present (the bookkeeping of not() is pinned, not specified)".into(),
             ],
-            require: vec![("recoveries_in_model".into(), 10_000), ("failed_recoveries_in_model".into(), 10_000), ("outputs_with_recovered_errors".into(), 1000), ("transparent_successes".into(), 1000), ("rejected_after_failed_recovery".into(), 1000), ("recovery_after_deeper_abandoned_alternative".into(), 100), ("nested_delimiter_cases".into(), 1000)],
+            require: vec![("recoveries_in_model".into(), 10_000), ("failed_recoveries_in_model".into(), 10_000), ("outputs_with_recovered_errors".into(), 1000), ("transparent_successes".into(), 1000), ("rejected_after_failed_recovery".into(), 1000), ("recovery_after_deeper_abandoned_alternative".into(), 100), ("nested_delimiter_cases".into(), 1000), ("bracket_family_regions_recovered".into(), 10_000), ("bracket_family_regions_containing_other_pairs".into(), 1000)],
             min_evaluations: 10_000,
         },
     )
